@@ -197,6 +197,9 @@ func (sk *SecretKey[E, S]) UnmarshalCBOR(data []byte) error {
 	if err != nil {
 		return errs.Wrap(err).WithMessage("could not unmarshal secret key")
 	}
+	if dto == nil {
+		return encryption.ErrIsNil.WithMessage("SecretKey DTO is nil")
+	}
 	skk, err := NewSecretKey(dto.G, dto.A)
 	if err != nil {
 		return errs.Wrap(err).WithMessage("could not create secret key from unmarshalled data")
